@@ -605,6 +605,9 @@ def run(repo: Repo, rep):
     from .generic import g_arg_constructor_parameters
     g_arg_constructor_parameters(repo, rep, lambda m: ".conditions." in m, floor=10,
                                  why="a condition that ignores a constructor argument (weight, norm, root, data functions, parameter) computes another loss than documented")
+    from .generic import g_pos_base_constructor_arguments
+    g_pos_base_constructor_arguments(repo, rep, lambda m: ".conditions." in m, floor=10,
+                                     why="a weight that arrives as constrain_fn (or a norm as root) computes another loss; the pinned tests construct conditions with defaults, where a swap is invisible")
     r8_per_function_points(repo, rep)
     r1234_forward(repo, rep)
     r3b_data_loop(repo, rep)
